@@ -112,12 +112,16 @@ def gen_library(seed, cfg=None):
     r = g.r
     out = [HDR, ""]
     gsc = gen.Scope(g, False)
+    have_reg_global = False
     for _ in range(r.randrange(1, 3)):
         name = g.fresh("G")
-        if r.random() < 0.4:
+        # at most one register-resident global per library and no temporaries at library top level:
+        # library globals get line-based lifetimes and may share registers (known finding)
+        if r.random() < 0.4 or have_reg_global:
             out.append(f"{name} = {g.const()}")
             g.constish_vars.add(name)
         else:
+            have_reg_global = True
             # attribute chains deeper than two are rejected at library top level (known finding)
             out.append(f"{name} = d{r.randrange(6)}.{r.choice(gen.LOGIC_R)}")
         g.global_vars.append(name)
@@ -129,7 +133,7 @@ def gen_library(seed, cfg=None):
     # an uncalled function and a __main__ block: both must contribute nothing
     out += ["def never_called(a):", "    d5.Setting = a + 99", "    return a", ""]
     for _ in range(r.randrange(0, 3)):
-        out.append(f"d{r.randrange(6)}.{r.choice(gen.LOGIC_RW)} = {r.choice(gsc.vars)} + {r.randrange(5)}")
+        out.append(f"d{r.randrange(6)}.{r.choice(gen.LOGIC_RW)} = {r.choice(gsc.vars)}")
     out += ["", 'if __name__ == "__main__":', "    d4.Setting = 12345"]
     if g.funcs:
         f = g.funcs[0]
@@ -166,6 +170,9 @@ def gen_multi(seed):
 WITNESS = {
     "lib_attr_chain": ({"": HDR + "from library import lib0\nlib0.f()\n", "lib0": HDR + "\nG = Batteries.Charge.Maximum\n\ndef f():\n    db.Setting = G\n"},
                        "an attribute chain of depth 3 at the top level of a library module is rejected ('Module has no attribute')"),
+    "lib_global_lifetime": ({"": HDR + "from library import lib0\nlib0.show()\nlib0.show()\n",
+                             "lib0": HDR + "\nG1 = d1.Power\nG2 = d4.Ratio\nd4.Lock = G2 + 0\nd1.Activate = G2 + 1\n\ndef show():\n    db.Setting = G1\n    db.Mode = G2\n"},
+                            "globals of a library module get line-based lifetimes: a later top-level temporary reuses the register of a global that functions still read"),
     "lib_call_in_function": ({"": HDR + "from library import lib0\n\ndef g(x):\n    lib0.f(x)\n\ng(d0.Setting)\ng(1)\n", "lib0": HDR + "\ndef f(a):\n    db.Setting = a\n"},
                              "a library function called from inside a function of the main file is rejected ('Calling undefined function')"),
 }
@@ -258,6 +265,8 @@ def run(tier: str) -> int:
             rep.harness_errors.append(f"{spec['name']}: {r.get('detail')}")
         if r["status"] in ("ok", "divergence"):
             programs += 1
+        if r["status"] == "compile_mismatch" and "Running out of registers" in (r.get("detail") or ""):
+            continue  # register pressure differs between the split and the merged program: not a behaviour
         if r["status"] in ("divergence", "compile_mismatch"):
             k = next((x for x in known if x.get("program") == spec["name"].split("@")[0]), None)
             if k is not None:
